@@ -213,7 +213,11 @@ theorem pktHistOkR_of_histOk (os : List Pred.C09Av1.PktCall) :
   exact ⟨this.1.1, this.1.2⟩
 
 def c09pkt : Handler :=
-  mkHandler (do let r ← Rd.bool; let ps ← Rd.list Rd.obytes; pure (r, ps)) (Rd.list rdPktCall)
+  -- input: `<reuse> <n> (<obytes> <always>)*` — `always`: ReadFrames is called after this Unmarshal
+  -- even if it refused the payload (otherwise only after a successful one)
+  mkHandler (do let r ← Rd.bool
+                let ps ← Rd.list (do let p ← Rd.obytes; let a ← Rd.bool; pure (p, a))
+                pure (r, ps)) (Rd.list rdPktCall)
     (fun (r, ps) => pktCallsOf r {} [] ps)
     (fun _ os => pktHistOkR os)
 
